@@ -35,6 +35,15 @@ def build_menu():
     pack("dec", E, 60, "dict"); pack("tt", [1, 2, 3, 4, 5, 6, 7, 8, 9, 10], 10, "list"); pack("tq", [994, 501, 501, 499, 499, 499, 499] + 12 * [1], 1000, "list", "Sums")
     pack("tq", E, 60, "dict"); pack("tt", E, 60, "valueof", "BinCount")
     pack("ff", [3, 70, 2], 60, "list"); pack("bfd", [3, 70, 2], 60, "dict"); pack("bc", [3, 70, 2], 60, "list", "BinCount")
+    # the same input with ONE argument changed - what a cache keyed too coarsely would confuse
+    X = [10, 26, 26, 20]; Y = [29, 22, 19, 18, 17, 10, 1]
+    pack("bc", X, 29); pack("bc", X, 36); pack("bc", Y, 29); pack("bc", Y, 58); pack("bc", [19, 14, 4, 14, 24, 17, 20, 15, 20], 49)
+    pack("bfd", X, 29); pack("bfd", X, 36); pack("ffd", Y, 29); pack("ffd", Y, 58, "dict"); pack("ff", Y, 41)
+    pack("dec", Y, 30); pack("dec", Y, 45); pack("tt", Y, 30); pack("tt", Y, 45); pack("tq", Y, 30); pack("tq", Y, 45, "dict")
+    part("snp", W, 3); part("snp", W, 5); part("rnp", W, 4); part("ckk", W, 3); part("ckk", W, 4, "dict"); part("kk", W, 2); part("kk", W, 5)
+    part("cg", W, 2, "list", "Partition", o="minsum"); part("cg", W, 3, "list", "Partition", o="maxsum"); part("cg", W, 3, "list", "Partition", o="diff", sw="0010")
+    part("dp", W, 2, "list", "Partition", o="maxsum"); part("dp", W, 3, "list", "Sums", o="maxsum"); part("greedy", W, 2); part("greedy", W, 4, "dict")
+    part("multifit", W, 3, "list", "Partition", it=2); part("multifit", W, 3, "list", "Partition", it=10); part("cbldm", W, 2, "list", "Partition", d=1); part("cbldm", W, 2, "list", "Partition", d=3)
     return M
 
 
@@ -87,6 +96,8 @@ def call(desc):
             pk = d.part_kwargs(st)
             if "d" in kw:
                 pk["partition_difference"] = kw["d"]
+            if "it" in kw:
+                pk["iterations"] = kw["it"]
             if kw.get("infeasible"):
                 pk["additional_constraints"] = lambda sums: [sums[0] == 1]
             ret = prtpy.partition(algorithm=d.PART_ALGS[desc["alg"]](), numbins=desc["k"], items=items, valueof=valueof if desc["fmt"] == "valueof" else None,
